@@ -95,7 +95,21 @@ func execXk(netsS, rootS, opsS string, quiet bool) string {
 		if !ok || err != nil || n < 0 || n >= len(nets) {
 			return "bad-op"
 		}
-		push(bip32.NewMaster(seed, nets[n].params))
+		// the seed is the caller's: it must come back unchanged, a second master from the same buffer must be the same
+		// key, and wiping the buffer afterwards must not reach into the key that is kept
+		seedCopy := append([]byte{}, seed...)
+		first, err1 := bip32.NewMaster(seed, nets[n].params)
+		if string(seed) != string(seedCopy) {
+			return "seed-modified"
+		}
+		second, err2 := bip32.NewMaster(seed, nets[n].params)
+		if (err1 == nil) != (err2 == nil) || (err1 == nil && first.String() != second.String()) {
+			return "second-master-differs"
+		}
+		for i := range seed {
+			seed[i] = 0
+		}
+		push(second, err2)
 	case len(rp) == 2 && rp[0] == "str":
 		s, ok := unhex(rp[1])
 		if !ok {
